@@ -5,7 +5,7 @@ from pyvc.values import (V, Int, Str, Bool, SeqV, NONE, ABSENT, TRUE, FALSE, tru
                          mk_bool, mk_str, mk_int, mk_seq, qforall, EMPTY_MAP)
 from pyvc.builtins_ import f_lstrip, f_rstrip
 from specs.ev import EV, EVX
-from specs.strings import fmt, fmt_ok, wfp
+from specs.strings import fmt, fmt_ok, wfp, fmt_rend
 from specs.external import dcopy, jdumps, fs_exists, fs_readable
 from specs.wf import wf_eval, eval_axioms, http_ctx, ctx_ok
 from .util import args5, eval_defs, json_axioms
@@ -40,9 +40,9 @@ def http_axioms(eng, st):
 
 def prefix_axioms(scheme, m, tm):
     """trusted lemma about %-formatting: a %-free constant prefix changes neither well-formedness nor the set of
-    referenced keys"""
+    referenced keys (hence not whether their values can be written)"""
     p = z3.Concat(z3.StringVal(scheme), m)
-    return [wfp(p) == wfp(m), fmt_ok(p, tm) == fmt_ok(m, tm)]
+    return [wfp(p) == wfp(m), fmt_ok(p, tm) == fmt_ok(m, tm), fmt_rend(p, tm) == fmt_rend(m, tm)]
 
 
 def payload_temp(eng, st, target, temp_map):
@@ -184,6 +184,9 @@ def register(reg, stubs, world):
             if c_ == 'KeyError':
                 return [('KeyError-only-for-a-missing-url-key-before-any-request',
                          z3.And(z3.Not(fmt_ok(m, tm)), z3.BoolVal(not recs)))]
+            if c_ == 'ValueError':
+                return [('ValueError-only-for-a-url-value-that-cannot-be-written-before-any-request',
+                         z3.And(fmt_ok(m, tm), z3.Not(fmt_rend(m, tm)), z3.BoolVal(not recs)))]
             if c_ == 'RuntimeError':
                 if recs:
                     return P + [('RuntimeError-after-a-request-only-on-timeout', z3.BoolVal(recs[0]['outcome'] == 'Timeout'))]
@@ -195,8 +198,8 @@ def register(reg, stubs, world):
             return [z3.BoolVal(False)]
         return post
     reg.add(Contract('_external:HttpCheck.__call__', pre=http_pre, post=http_post('http:', False), defs=eval_defs,
-                     axioms=http_axioms_('http:'), raises=('KeyError', 'RuntimeError', '$OtherException'),
+                     axioms=http_axioms_('http:'), raises=('KeyError', 'ValueError', 'RuntimeError', '$OtherException'),
                      allocates=True, props=('C16',)))
     reg.add(Contract('_external:HttpsCheck.__call__', pre=http_pre, post=http_post('https:', True), defs=eval_defs,
-                     axioms=http_axioms_('https:'), raises=('KeyError', 'RuntimeError', '$OtherException'),
+                     axioms=http_axioms_('https:'), raises=('KeyError', 'ValueError', 'RuntimeError', '$OtherException'),
                      allocates=True, props=('C16',)))
